@@ -10,5 +10,5 @@ VERIF_ROOT_EVIDENCE_SAVE=1 cp -f "evidence/$id.json" ".work/evidence.$id.save" 2
 ./check "$id" --tier "$tier" > ".work/seedrun.$id.out" 2>&1; rc=$?
 git -C /repo checkout -- . ; git -C /repo clean -fdq
 cp -f ".work/evidence.$id.save" "evidence/$id.json" 2>/dev/null
-grep -E "^(VIOLATION|KNOWN-FINDING|OK|TOOL-ERROR)" ".work/seedrun.$id.out" | head -8
+grep -E "^(VIOLATION|OK|TOOL-ERROR)" ".work/seedrun.$id.out" | head -6; grep -A1 "^VIOLATION" ".work/seedrun.$id.out" | grep "^  " | head -3 | cut -c1-200
 echo "exit=$rc"
